@@ -23,6 +23,7 @@ func init() {
 			"R4.4: no path of Write reaches the sequence-number map (and hence a write) with the packet's temporal or spatial layer above the current one without first asking the map to withhold it. " +
 			"R4.5: replaceTracks installs the low-quality limit on every track and resets the wanted spatial layer to 0 with it; adjustLayer never stores a wanted spatial layer other than 0 on a limited track (so that, with the reset at installation and Write's not-limited guard, every stored selection with the limit has wantedSid 0); requestedTracks sets the limit only for a low-quality request on a publisher without simulcast. " +
 			"R4.6 (proof): every value stored into the loss-based ceiling lies in [minLossRate, maxLossRate]. " +
+			"R4.8: while the sequence-number map has recorded no drop, every call of Map either stores the expected number (next) or finds that an earlier packet already did (the started flag): a withhold attempt compares the packet with next, so a stream whose first number looks 'late' against the zero value must not leave it unset (F-T). " +
 			"R4.7: codecs.PacketFlags marks a packet as the start of a frame only where the payload descriptor says so (VP8: S bit and partition index 0; VP9: B bit), and as a keyframe only at such a start.",
 		NotDecided: []string{
 			"that a drop attempt succeeds (only in-order packets can be withheld: C01 R1.2)",
@@ -48,6 +49,8 @@ func runC04(c *Ctx) {
 	c.Rule("R4.5", "E2", "low-quality limit installed on every track, honoured by adjustLayer, set only without simulcast", 4)
 	c.Rule("R4.6", "E6", "loss-based ceiling within [minLossRate, maxLossRate] (interval proof)", 1)
 	c.Rule("R4.7", "E2", "a packet starts a frame only where its payload descriptor says so; keyframes only at frame starts", 4)
+	c.Rule("R4.8", "E3", "the first packet of a stream sets the map's expected number, whatever its sequence number", 1)
+	runC04FirstPacket(c)
 	runFrameStartFlags(c, "R4.7")
 	wr := p.Func("rtpconn", "rtpDownTrack", "Write")
 	al := p.Func("rtpconn", "rtpDownTrack", "adjustLayer")
@@ -789,4 +792,129 @@ func runFrameStartFlags(c *Ctx, rule string) {
 	if nStart < 2 || nKey < 2 {
 		c.Bad(rule, "PacketFlags sets Start and Keyframe for VP8 and VP9", pf.Pos(), fmt.Sprintf("%d stores to Start, %d to Keyframe found (expected at least 2 each)", nStart, nKey))
 	}
+}
+
+// R4.8 (F-T): Drop withholds only the packet whose number equals m.next.  In
+// the state without recorded drops Map must therefore have set next from the
+// first packet: every path through Map that stays in that state stores next,
+// or arrives with "started" found true before anything stored it.
+func runC04FirstPacket(c *Ctx) {
+	p := c.P
+	mp := p.Func("packetmap", "Map", "Map")
+	fNext := p.Field("packetmap", "Map", "next")
+	fDelta, fEntries := p.Field("packetmap", "Map", "delta"), p.Field("packetmap", "Map", "entries")
+	if mp == nil || fNext == nil || fDelta == nil || fEntries == nil {
+		c.Unknown("R4.8", "anchors", 0, "packetmap.Map.Map / next / delta / entries not found")
+		return
+	}
+	// the record of "a packet was seen": some boolean field of the map (by role, not by name)
+	var flagsF []*types.Var
+	if tn := p.TypeName("packetmap", "Map"); tn != nil {
+		if st, ok := tn.Type().Underlying().(*types.Struct); ok {
+			for i := 0; i < st.NumFields(); i++ {
+				if bt, ok := st.Field(i).Type().Underlying().(*types.Basic); ok && bt.Kind() == types.Bool {
+					flagsF = append(flagsF, st.Field(i))
+				}
+			}
+		}
+	}
+	if len(flagsF) == 0 {
+		c.Bad("R4.8", "Map: the first packet sets next", mp.Pos(), "the map has no record of whether a packet was seen (no boolean field): a first sequence number that compares as late against the zero value of next leaves next unset, and Drop then refuses every packet until the numbers wrap")
+		return
+	}
+	info := mp.Pkg.TypesInfo
+	ff := p.Facts().Analyze(mp)
+	if len(mp.Body().List) == 0 {
+		c.Unknown("R4.8", "anchors", 0, "empty body")
+		return
+	}
+	storesField := func(n ast.Node, fld *types.Var) bool {
+		hit := false
+		ast.Inspect(n, func(m ast.Node) bool {
+			if as, ok := m.(*ast.AssignStmt); ok {
+				for _, l := range as.Lhs {
+					if se, ok := unparen(l).(*ast.SelectorExpr); ok {
+						if sel := info.Selections[se]; sel != nil && sel.Obj() == types.Object(fld) {
+							hit = true
+						}
+					}
+				}
+			}
+			// a call that stores it (advance helpers of the vocabulary)
+			if call, ok := m.(*ast.CallExpr); ok {
+				if src := p.SrcOfFunc(calleeOf(&CallSite{Call: call, In: mp})); src != nil && src.Decl != nil && src.Pkg == mp.Pkg && src != mp {
+					ast.Inspect(src.Body(), func(k ast.Node) bool {
+						if as, ok := k.(*ast.AssignStmt); ok {
+							for _, l := range as.Lhs {
+								if se, ok := unparen(l).(*ast.SelectorExpr); ok {
+									if sel := src.Pkg.TypesInfo.Selections[se]; sel != nil && sel.Obj() == types.Object(fld) {
+										// reset() zeroes next: that is not "setting it from the packet"
+										if tv := src.Pkg.TypesInfo.Types[as.Rhs[0]]; tv.Value == nil {
+											hit = true
+										}
+									}
+								}
+							}
+						}
+						return true
+					})
+				}
+			}
+			return true
+		})
+		return hit
+	}
+	from := ast.Node(mp.Body().List[0])
+	var pos token.Pos
+	found := true
+	for _, fStarted := range flagsF {
+		ps, fnd := ff.PathSearchPSX(from, 0, func(n ast.Node, _ *State, flag int) (int, bool) {
+			if as, ok := n.(*ast.AssignStmt); ok && storesField(as, fNext) {
+				if tv := info.Types[as.Rhs[0]]; tv.Value == nil {
+					return flag, true
+				}
+			} else if storesField(n, fNext) {
+				if _, isAs := n.(*ast.AssignStmt); !isAs {
+					return flag, true
+				}
+			}
+			if storesField(n, fStarted) {
+				flag = 1
+			}
+			return flag, false
+		}, nil, func(flag int, st *State) bool {
+			for _, f := range st.Facts() {
+				if f.A == nil {
+					continue
+				}
+				// found started (before it was stored on this path)
+				if flag == 0 && f.Op == "true" && f.Pos && f.A.K == 'f' && f.A.Obj == types.Object(fStarted) {
+					return false
+				}
+				// not the state without drops
+				if f.Op == "eq" && !f.Pos && f.B != nil {
+					for _, pr := range [][2]*Term{{f.A, f.B}, {f.B, f.A}} {
+						if pr[0].K == 'f' && pr[0].Obj == types.Object(fDelta) && pr[1].K == 'c' && pr[1].Name == "0" {
+							return false
+						}
+						if pr[0].K == 'f' && pr[0].Obj == types.Object(fEntries) && pr[1].K == 'n' {
+							return false
+						}
+					}
+				}
+			}
+			return true
+		})
+		if !fnd {
+			found = false
+			break
+		}
+		pos = ps
+	}
+	at := mp.Pos()
+	if found && pos.IsValid() {
+		at = pos
+	}
+	c.Check(!found, "R4.8", "Map: the first packet sets next", at, "every path of Map in the state without drops stores next or found started set",
+		"a call of Map in the state without recorded drops can return without setting next although no earlier packet did: with a first sequence number in 57344..65534 next stays at its zero value and Drop refuses every packet until the numbers wrap (layers above the selection are forwarded)")
 }
